@@ -223,11 +223,21 @@ def probe_part(chk, tier, r):
                 g['cert_file_ext'] = ce
             if pe:
                 g['pk_file_ext'] = pe
-            g.update({k: v for k, v in cases[b]['global'].items() if v})
+            gopts = {k: v for k, v in cases[b]['global'].items() if v}
             cfg = {'global': g,
                    'endpoint': endpoints,
                    'account': [{'name': 'a', 'contacts': [{'mailto': 'a@example.org'}]}], 'certificate': certs}
             p = '%s/cfg%d.toml' % (d, b)
+            if (b // per_cfg) % 3 == 1 and gopts:
+                # conf.d layout: the global renewal options live in the [global] table of an included file (in a sub-directory,
+                # named by a relative glob), the main file has a [global] table of its own
+                os.makedirs('%s/conf%d.d' % (d, b), exist_ok=True)
+                open('%s/conf%d.d/10-renewal.toml' % (d, b), 'w', encoding='utf-8').write(C.toml_dumps({'global': gopts}))
+                cfg = dict({'include': ['conf%d.d/*.toml' % b]}, **cfg)
+                for c in cases[b:b + per_cfg]:
+                    c['global_included'] = True
+            else:
+                g.update(gopts)
             open(p, 'w', encoding='utf-8').write(C.toml_dumps(cfg))
             cfgs.append(p)
         return d, cases, cfgs
@@ -263,6 +273,8 @@ def run_probe(chk, cases, cfgs, binary='acmed_v'):
                               c['renew_delay'] if c['covered'] else '-', c['random_early_renew'] if c['covered'] else '-'))
             if c.get('links'):
                 chk.count('files_behind_symbolic_links')
+            if c.get('global_included') and c['files'] == 'both' and c['covered'] and 'global' in (c['place']['renew_delay']['level'], c['place']['random_early_renew']['level']):
+                chk.count('global_renewal_options_from_an_included_file')
             if c.get('cert_name', 'c.crt.pem') != 'c.crt.pem' or c.get('key_name', 'c.pk.pem') != 'c.pk.pem':
                 chk.count('files_named_with_configured_extensions')
             if c['files'] == 'both' and c['covered']:
@@ -286,6 +298,67 @@ def run_probe(chk, cases, cfgs, binary='acmed_v'):
                     rc, c['not_after'], c['renew_delay'], c['random_early_renew'], err.strip().splitlines()[-1][:200] if err.strip() else ''), {'case': c, 'stderr': err[-800:]})
             else:
                 chk.inconclusive.append('sched probe failed on %s: rc=%s %s' % (p, rc, err[-200:]))
+
+
+UNNAMED_FIRST = [('dns', 'bücher.example.org'), ('dns', 'MiXed.Example.COM'), ('dns', 'ÜBER.example.org'), ('dns', '*.Wild.example.org'),
+                 ('dns', 'παράδειγμα.example'), ('dns', '*.bücher.example'), ('ip', '2001:DB8:0:0:0:0:0:1'), ('ip', '2001:0db8::00ff'),
+                 ('ip', '::FFFF:192.0.2.33'), ('ip', '192.0.2.1'), ('dns', 'plain.example.org'), ('dns', 'xn--bcher-kva.example.de')]
+
+
+def unnamed_part(chk):
+    """Certificates without a `name`: the files of an earlier run sit under the documented default name (the first identifier as
+    written, with * : / replaced), they cover every identifier and expire in 300 days: nothing is due."""
+    d = C.workdir('C06', 'unnamed')
+    try:
+        now = int(time.time())
+        na = now + 300 * 86400
+        mk, cfgs, cases = [], [], []
+        for i, (kind, first) in enumerate(UNNAMED_FIRST):
+            for second in (None, ('dns', 'Second%d.example.org' % i)):
+                k = len(cases)
+                cd = '%s/u%d' % (d, k)
+                os.makedirs(cd)
+                ids = [(kind, first)] + ([second] if second else [])
+                base = first.replace('*', '_').replace(':', '_').replace('/', '_') + '_ecdsa-p256'
+                mk.append({'id': k, 'out_cert': '%s/%s.crt.pem' % (cd, base), 'out_key': '%s/%s.pk.pem' % (cd, base), 'key_type': 'ecdsa-p256',
+                           'not_after': time.strftime('%Y%m%d%H%M%SZ', time.gmtime(na)), 'not_before': '19700101000000Z',
+                           'sans': [[kd, norm_id(kd, v)] for kd, v in ids]})
+                cfg = {'global': {'accounts_directory': d + '/acc', 'certificates_directory': cd},
+                       'endpoint': [{'name': 'e', 'url': 'http://127.0.0.1:9/', 'tos_agreed': True}],
+                       'account': [{'name': 'a', 'contacts': [{'mailto': 'a@example.org'}]}],
+                       'certificate': [{'account': 'a', 'endpoint': 'e', 'hooks': [], 'key_type': 'ecdsa_p256',
+                                        'identifiers': [{kd: v, 'challenge': 'http-01'} for kd, v in ids]}]}
+                pth = '%s/u%d.toml' % (d, k)
+                open(pth, 'w', encoding='utf-8').write(C.toml_dumps(cfg))
+                cfgs.append(pth)
+                cases.append({'ids': ids, 'config': pth})
+        C.vtool('mkcert', mk, timeout=600)
+
+        def one(pth):
+            return C.probe('sched', [{'config': pth, 'repeat': 3}], timeout=300)
+        for (rc, recs, err), c in zip(C.parallel(cfgs, one), cases):
+            decided = [r_ for r_ in recs if 'res' in r_]
+            if rc != 0 or not decided:
+                bad = [r_ for r_ in recs if r_.get('load_ok') is False]
+                chk.inconclusive.append('unnamed certificate %s: no decision (rc=%s %s)' % (c['ids'], rc, (bad[0].get('err') if bad else err[-200:])))
+                continue
+            rec = decided[0]
+            chk.evaluations += 1
+            chk.count('unnamed_certificates_judged')
+            chk.distinct.add(('unnamed', c['ids'][0], len(c['ids'])))
+            for x in rec['res']:
+                want_lo = na - 30 * 86400 - rec['t1'] - 2
+                want_hi = na - 30 * 86400 - rec['t0'] + 2
+                if not x.get('ok'):
+                    chk.violation('C06|unnamed|error', 'certificate without a name, first identifier %r: the scheduling decision failed: %s' % (c['ids'][0][1], x.get('err')), {'case': c, 'probe': rec})
+                    break
+                if not (want_lo <= x['s'] <= want_hi):
+                    chk.violation('C06|%s|unnamed' % ('early-zero' if x['s'] == 0 else 'early' if x['s'] < want_lo else 'late'),
+                                  'certificate without a name, first identifier %r, files present under the default name, 300 days left, default renew_delay: the daemon waits %d s, expected %d..%d s' % (
+                                      c['ids'][0][1], x['s'], want_lo, want_hi), {'case': c, 'probe': rec})
+                    break
+    finally:
+        C.rmtree(d)
 
 
 def blackbox_case(case):
@@ -345,6 +418,7 @@ def run(tier):
     th.start()
     try:
         run_probe(chk, cases, cfgs)
+        unnamed_part(chk)
     finally:
         th.join()
         C.rmtree(d)
@@ -361,7 +435,7 @@ def run(tier):
     chk.notes['blackbox_offsets_s'] = [x for res in bb_res for x in res['intervals']]
     chk.rule = ('probe: certificates made by vtool (notAfter from 1970 to 9999 incl. the 2^31 s boundary, SAN sets equal / permuted / superset / subset / '
                 'disjoint over DNS, wildcard, IDN, IPv4, IPv6), renew_delay and random_early_renew from 0 s to u64::MAX s, either file absent, '
-                '8 decisions each; distinct = (files, SAN relation, notAfter class, renew_delay, random_early_renew) tuples judged; '
+                '8 decisions each, the global renewal options given in the main file or in the [global] table of an included one; certificates without a name whose files sit under the documented default name (first identifier as written: IDN, mixed case, wildcard, non-canonical IP); distinct = (files, SAN relation, notAfter class, renew_delay, random_early_renew) tuples judged; '
                 'black-box: 12-30 s certificates, arrival of the next order')
     chk.assumptions = ['clock reads bracket each batch of decisions; tolerance = bracket + 2 s', 'expected identifiers from an independent normaliser']
     code = chk.finish()
